@@ -408,3 +408,28 @@ func SetCrashes(budget int)     {}
 func ModelAllOpensSynced() bool { return true }
 
 func DeferGoroutines(on bool) {}
+
+func String(name string, n int) string {
+	b := make([]byte, n)
+	for k := range b {
+		b[k] = byte(bits(fmt.Sprintf("%s_%d", name, k)))
+	}
+	return string(b)
+}
+
+func OneOf(name string, table ...string) string {
+	k := int(bits(name))
+	if k < 0 || k >= len(table) {
+		k = 0
+	}
+	return table[k]
+}
+
+func EqualFold(a, b string) bool { return strings.EqualFold(a, b) }
+
+func IteBool(c, a, b bool) bool {
+	if c {
+		return a
+	}
+	return b
+}
